@@ -45,7 +45,9 @@ theorem seg_checkForConst (ids : List Str) (code : List Instr) (h : Seg code 0 1
   split
   · exact h
   · split
-    · exact seg_const _
+    · split
+      · exact h
+      · exact seg_const _
     · exact h
 
 theorem goodX_chain (op : BinOp) {first r : List Instr} {rest : List (List Instr)}
@@ -356,7 +358,9 @@ theorem nc_checkForConst (hev : ConstEvalCert B) (ids : List Str) (code : List I
   · exact h
   · split
     · rename_i v hv
-      exact nc_const (hev code v h hv)
+      split
+      · exact h
+      · exact nc_const (hev code v h hv)
     · exact h
 
 /-- A pushed code operand that is the compilation of a subtree. -/
